@@ -68,7 +68,8 @@ VOID_LEAVES = [
 def rich_leaf(tfy: bool = True, plain_only: bool = False):
     text = st.builds(lambda s: {"k": "text", "s": s}, st.one_of(gen.safe_text(0, 4), gen.hot_text(3)))
     html = st.builds(lambda s: {"k": "html", "s": s}, st.one_of(st.sampled_from(["<b>x</b>", "&amp;", ""]), gen.hot_text(3)))
-    dep = st.sampled_from(DEP_POOL[:-1] if plain_only else DEP_POOL)
+    # the two definitions with equal name + version and different content are made frequent: trees holding both
+    dep = st.one_of(st.sampled_from(DEP_POOL[:-1] if plain_only else DEP_POOL), st.sampled_from([DEP_POOL[0], DEP_POOL[6]]))
     alts = [text, text, html, dep, dep, st.sampled_from(VOID_LEAVES)]
     if not plain_only:
         alts.append(st.builds(lambda s: {"k": "repr", "s": "<u>" + s + "</u>"}, gen.safe_text(0, 3)))
@@ -175,7 +176,7 @@ def op_strategy():
 
 
 def purity_case():
-    return st.fixed_dictionaries({"pool": st.lists(pool_objects(), min_size=2, max_size=4), "ops": st.lists(op_strategy(), min_size=3, max_size=18), "flaky": st.sampled_from([0, 0, 1, 2])})
+    return st.fixed_dictionaries({"pool": st.lists(pool_objects(), min_size=2, max_size=4), "ops": st.lists(op_strategy(), min_size=3, max_size=18), "flaky": st.sampled_from([0, 0, 1, 2]), "twins": st.sampled_from([False, False, True])})
 
 
 def _make_flaky(r, budget):
@@ -335,6 +336,11 @@ def _purity(case, note, tmp):
     if case.get("flaky"):
         budget = [case["flaky"]]
         case = dict(case, pool=[dict(p, **{k: _make_flaky(p[k], budget) for k in ("r", "content", "later") if k in p}) for p in case["pool"]])
+    if case.get("twins"):
+        # two dependency definitions with the same name and version but different directories, each asked in turn
+        n0 = len(case["pool"])
+        case = dict(case, pool=case["pool"] + [{"o": "dep", "r": DEP_POOL[0]}, {"o": "dep", "r": DEP_POOL[6]}],
+                    ops=list(case["ops"]) + [[n0, "source_path_map", ["lib", True]], [n0 + 1, "source_path_map", ["lib", True]], [n0, "as_dict", ["lib", True]], [n0 + 1, "as_html_tags", ["lib", False]], [n0, "source_path_map", ["lib", True]]])
     pool = [build_pool_obj(p) for p in case["pool"]]
     kinds = [p["o"] for p in case["pool"]]
     base = [S.snap(o) for o in pool]
